@@ -135,6 +135,21 @@ theorem demo_conflict_merged (b : Store) (c : Layer) (ds : DState) (x : Nat) (o 
     obtain ⟨t, ht, he, _⟩ := mem_revsOf hy
     rw [← he]; exact hm t ht)
 
+/-- `checkCurrentSerialInTransaction(oid, serial, …)` (readCurrent) inside the transaction in progress
+    compares `serial` with the current tid of the *concatenated* history: accepted iff they are equal,
+    ReadConflictError otherwise — also for a non-current serial of an object that lives only in the base
+    — and POSKeyError for an object without (live) current revision.  It changes nothing. -/
+theorem demo_readcurrent_merged (b : Store) (c : Layer) (ds : DState) (x : Nat) (o : Oid) (ser : Tid)
+    (htxn : ds.txn = some x) (hs : Sorted (.demo b c ds)) (ho : TidOrdered (.demo b c ds))
+    (hm : BelowMax (.demo b c ds)) (hu : UncreateOverNothing (.demo b c ds)) :
+    step (.demo b c ds) (.checkCurrent x o ser) =
+      (.demo b c ds, match getTidR ((Store.demo b c ds).revs o) with
+                     | .error e => .err e
+                     | .ok t => if t = ser then .ok else .err .readConflict) := by
+  have h := store_getTid _ o (oidOK_of hs ho hm hu o)
+  simp only [step, htxn, ne_eq, not_true_eq_false, if_false, h, checkCurrentOut]
+  cases getTidR ((Store.demo b c ds).revs o) <;> rfl
+
 /-! ### 5. new ids never collide -/
 
 /-- For EVERY stream of candidate draws: the oid `new_oid` returns is not in the issued set and
@@ -204,6 +219,8 @@ example : (step exS (.newOid [1, 7, 9])).2 = .oid (some 9) 3 := by decide   -- 7
 example : (step exS (.newOid [])).1.loadBefore 1 41 = exS.loadBefore 1 41 := by decide
 example : (step (step exS (.begin 5 (some 50) 0)).1 (.store 5 1 21 107)).2 = .err .conflict := by decide
 example : (step (step exS (.begin 5 (some 50) 0)).1 (.store 5 2 10 107)).2 = .ok := by decide
+example : (step (step exS (.begin 5 (some 50) 0)).1 (.checkCurrent 5 1 21)).2 = .err .readConflict := by decide
+example : (step (step exS (.begin 5 (some 50) 0)).1 (.checkCurrent 5 2 10)).2 = .ok := by decide
 
 /-! ### the excluded point `UncreateOverNothing` (open finding): the model, following the code, gives
     the wrong answers — undo of the transaction that first changed a base object -/
